@@ -64,6 +64,8 @@ type hTask struct {
 	ShVar     bool // task-level dynamic variable (evaluated whenever the task is compiled, also by queries)
 	Call      bool // one cmds entry calls helper task chk-<id>, whose precondition fails while ctl/failcall-<id> exists
 	Dep       int  // -1 or index of the dependency
+	SrcDep    bool // the dependency's generated file (whose content differs on every run of the dependency) is one of this task's sources
+	Pre       bool // precondition: fails while ctl/pre-<id> exists
 }
 
 type hProj struct {
@@ -130,11 +132,19 @@ func genHProj(ch *vs.Choices, prop string) *hProj {
 		if ch.Bool(1, 6) {
 			t.Label = "lab-" + t.ID
 		}
+		t.Pre = (ch.Bool(1, 4) || (prop == "C13" && ch.Bool(2, 3))) && !t.Dir // (a precondition runs in the task's dir, which must exist)
+		t.SrcDep = ch.Bool(1, 2)
 		p.Tasks = append(p.Tasks, t)
 	}
 	for _, t := range p.Tasks {
 		if t.Dep >= 0 && t.Inc && !p.Tasks[t.Dep].Inc {
 			t.Dep = -1
+		}
+		if t.SrcDep && (t.Dep < 0 || !p.Tasks[t.Dep].Generates) {
+			t.SrcDep = false
+		}
+		if t.SrcDep {
+			t.Sources = append(append([]hGlob{}, t.Sources...), hGlob{Pat: "out/" + p.Tasks[t.Dep].ID + ".gen"})
 		}
 	}
 	// state-file name collisions: "x:y" and "x-y", or two tasks with the same label
@@ -142,6 +152,7 @@ func genHProj(ch *vs.Choices, prop string) *hProj {
 		p.Tasks[0].Name, p.Tasks[1].Name = "col:x", "col-x"
 		p.Tasks[0].Label, p.Tasks[1].Label = "", ""
 		p.Tasks[1].Sources = p.Tasks[0].Sources
+		p.Tasks[1].SrcDep = false
 	}
 	return p
 }
@@ -247,6 +258,9 @@ func (p *hProj) renderTask(sb *strings.Builder, t *hTask) {
 	if t.Status {
 		fmt.Fprintf(sb, "    status:\n      - %s\n", yqH("test -f "+pre+"ctl/status-"+t.ID))
 	}
+	if t.Pre {
+		fmt.Fprintf(sb, "    preconditions:\n      - sh: %s\n        msg: precondition of %s refused\n", yqH("test ! -f "+pre+"ctl/pre-"+t.ID), t.ID)
+	}
 	sb.WriteString("    cmds:\n")
 	fmt.Fprintf(sb, "      - %s\n", yqH("echo b:"+t.ID+" >> "+pre+"trace.log"))
 	fmt.Fprintf(sb, "      - %s\n", yqH("test ! -f "+pre+"ctl/fail-"+t.ID+"-1"))
@@ -254,7 +268,8 @@ func (p *hProj) renderTask(sb *strings.Builder, t *hTask) {
 		fmt.Fprintf(sb, "      - task: chk-%s\n", t.ID)
 	}
 	if t.Generates {
-		fmt.Fprintf(sb, "      - %s\n", yqH("echo generated > "+pre+"out/"+t.ID+".gen"))
+		// the generated content differs on every run (number of trace lines so far; shell builtins only)
+		fmt.Fprintf(sb, "      - %s\n", yqH("n=0; while read l; do n=$((n+1)); done < "+pre+"trace.log; echo generated-$n > "+pre+"out/"+t.ID+".gen"))
 	}
 	fmt.Fprintf(sb, "      - %s\n", yqH("test ! -f "+pre+"ctl/fail-"+t.ID+"-2"))
 	fmt.Fprintf(sb, "      - %s\n", yqH("echo e:"+t.ID+" >> "+pre+"trace.log"))
@@ -430,11 +445,12 @@ func genHistory(ch *vs.Choices, p *hProj, prop, tier string) []hStep {
 	}
 	var out []hStep
 	weights := map[string][]string{
-		"C04": {"run", "run", "run", "run-yes", "op:fail", "op:failcall", "op:clearfail", "both", "crash-cmd", "crash-cmd", "crash-fp", "dry", "status", "list-json", "op:edit", "op:touch", "run-force", "op:delgen"},
-		"C05": {"run", "run", "run", "run-yes", "op:edit", "op:append", "op:touch", "op:add", "op:remove", "op:rename", "op:delgen", "op:status", "run-force", "op:edit-unmatched", "op:fail", "op:clearfail"},
+		"C04": {"run", "run", "run", "run-yes", "op:fail", "op:failcall", "op:clearfail", "both", "crash-cmd", "crash-cmd", "crash-fp", "dry", "status", "list-json", "op:edit", "op:touch", "run-force", "op:delgen", "op:prefail"},
+		"C05": {"run", "run", "run", "run-yes", "op:edit", "op:append", "op:touch", "op:add", "op:remove", "op:rename", "op:delgen", "op:status", "run-force", "op:edit-unmatched", "op:fail", "op:clearfail", "op:delgen"},
+		"C13": {"run", "run", "run", "run-yes", "both", "dry", "op:prefail", "op:prefail", "op:clearfail", "op:edit", "op:touch", "op:delgen", "op:fail"},
 		"C12": {"run", "run-yes", "dry", "status", "list", "list-all", "list-json", "list-all-json", "list-json-nostatus", "summary", "op:edit", "op:edit", "op:fail", "op:failcall", "op:failcall", "op:clearfail", "op:delgen", "dry", "dry", "status"},
 	}[prop]
-	advs := []time.Duration{time.Second, time.Second, 2 * time.Second, time.Minute, time.Hour, 48 * time.Hour}
+	advs := []time.Duration{time.Second, time.Second, 2 * time.Second, time.Minute, time.Hour, 48 * time.Hour, 20 * time.Millisecond, 300 * time.Millisecond}
 	for i := 0; i < n; i++ {
 		s := hStep{Kind: weights[ch.Draw(len(weights))], Task: ch.Draw(len(p.Tasks)), Adv: advs[ch.Draw(len(advs))]}
 		switch s.Kind {
@@ -467,7 +483,7 @@ func (s hStep) String(p *hProj) string {
 			return fmt.Sprintf("+%v %s %s -> %s", s.Adv, s.Kind, s.File, s.New)
 		case "op:fail":
 			return fmt.Sprintf("+%v %s %s cmd %d", s.Adv, s.Kind, t.ID, s.Fail)
-		case "op:clearfail", "op:delgen", "op:status", "op:failcall":
+		case "op:clearfail", "op:delgen", "op:status", "op:failcall", "op:prefail":
 			return fmt.Sprintf("+%v %s %s", s.Adv, s.Kind, t.ID)
 		}
 		return fmt.Sprintf("+%v %s %s", s.Adv, s.Kind, s.File)
@@ -546,9 +562,9 @@ func mapExit(err error) int {
 var hOpenFiles []*os.File
 
 type hInvoke struct {
-	outcome vs.Outcome
-	err     error
-	exit    int
+	outcome  vs.Outcome
+	err      error
+	exit     int
 	parseErr error
 }
 
@@ -607,11 +623,11 @@ func sharesStateFile(p *hProj, t *hTask) bool {
 type hState struct {
 	cleanAt      time.Time // simulated time of the last successful attempt
 	lastOKForced bool
-	changes map[string]bool // kinds of source changes since the last successful attempt
-	clean   bool
-	fp      string // fingerprint (as the property defines it) at the last successful attempt
-	why     string // why not clean: never_ran, failed_cmd, prompt_declined, crashed, cancelled
-	everRan bool
+	changes      map[string]bool // kinds of source changes since the last successful attempt
+	clean        bool
+	fp           string // fingerprint (as the property defines it) at the last successful attempt
+	why          string // why not clean: never_ran, failed_cmd, prompt_declined, crashed, cancelled
+	everRan      bool
 }
 
 var hRunCounter int
@@ -844,10 +860,13 @@ func runHOne(t *testing.T, ch *vs.Choices, prop string, render bool, p *hProj, h
 						write(fmt.Sprintf("ctl/fail-%s-%d", tk.ID, s.Fail), "x")
 					case "op:failcall":
 						write("ctl/failcall-"+tk.ID, "x")
+					case "op:prefail":
+						write("ctl/pre-"+tk.ID, "x")
 					case "op:clearfail":
 						_ = os.Remove(filepath.Join(dir, "ctl", "fail-"+tk.ID+"-1"))
 						_ = os.Remove(filepath.Join(dir, "ctl", "fail-"+tk.ID+"-2"))
 						_ = os.Remove(filepath.Join(dir, "ctl", "failcall-"+tk.ID))
+						_ = os.Remove(filepath.Join(dir, "ctl", "pre-"+tk.ID))
 					}
 					switch s.Kind {
 					case "op:edit", "op:append", "op:touch", "op:add", "op:remove", "op:rename":
@@ -866,43 +885,67 @@ func runHOne(t *testing.T, ch *vs.Choices, prop string, render bool, p *hProj, h
 					mustRun bool
 					cause   string
 					fpNow   string
+					preFail bool
 				}
 				exps := map[int]*exp{}
 				forced := s.Kind == "run-force"
+				genMissing, statusFails, preFails := map[int]bool{}, map[int]bool{}, map[int]bool{}
 				for _, ti := range chain {
 					x := p.Tasks[ti]
-					m := x.method(p)
-					e := &exp{fpNow: modelFP(dir, x, m)}
 					_, genErr := os.Stat(filepath.Join(dir, "out", x.ID+".gen"))
 					_, stErr := os.Stat(filepath.Join(dir, "ctl", "status-"+x.ID))
-					switch {
-					case forced:
-						e.mustRun, e.cause = true, "force"
-					case !st[ti].clean:
-						e.mustRun, e.cause = true, "last_attempt:"+st[ti].why
-					case st[ti].fp != e.fpNow:
-						e.mustRun, e.cause = true, "sources_changed:"+strings.Join(sortedKeysH(st[ti].changes), "+")
-						if m == "timestamp" {
-							// what is left of the changes: is any present source file newer than the last successful
-							// run (an edit, touch or addition survives), or only removals / mtime-preserving renames
-							newer := false
-							for _, f := range matchSources(dir, x.Sources) {
-								if fi, err := os.Stat(filepath.Join(dir, f)); err == nil && fi.ModTime().After(st[ti].cleanAt) {
-									newer = true
+					_, preErr := os.Stat(filepath.Join(dir, "ctl", "pre-"+x.ID))
+					genMissing[ti], statusFails[ti], preFails[ti] = x.Generates && genErr != nil, x.Status && stErr != nil, x.Pre && preErr == nil
+				}
+				// expect is evaluated after the invocation (and after its files got their simulated mtimes): a task's
+				// sources may include a file its dependency regenerates during this very invocation, and the task
+				// looks at its sources only after its dependencies are done. Nothing else touches sources while
+				// an invocation runs; generates/status/precondition facts are the ones from before it.
+				expect := func() {
+					for _, ti := range chain {
+						x := p.Tasks[ti]
+						m := x.method(p)
+						e := &exp{fpNow: modelFP(dir, x, m), preFail: preFails[ti]}
+						genErr, stErr := error(nil), error(nil)
+						if genMissing[ti] {
+							genErr = os.ErrNotExist
+						}
+						if statusFails[ti] {
+							stErr = os.ErrNotExist
+						}
+						if x.SrcDep && st[ti].clean && st[ti].fp != e.fpNow && len(st[ti].changes) == 0 {
+							st[ti].changes["dep_output"] = true
+							out.Hit("change:dep_output_regenerated")
+						}
+						switch {
+						case forced:
+							e.mustRun, e.cause = true, "force"
+						case !st[ti].clean:
+							e.mustRun, e.cause = true, "last_attempt:"+st[ti].why
+						case st[ti].fp != e.fpNow:
+							e.mustRun, e.cause = true, "sources_changed:"+strings.Join(sortedKeysH(st[ti].changes), "+")
+							if m == "timestamp" {
+								// what is left of the changes: is any present source file newer than the last successful
+								// run (an edit, touch or addition survives), or only removals / mtime-preserving renames
+								newer := false
+								for _, f := range matchSources(dir, x.Sources) {
+									if fi, err := os.Stat(filepath.Join(dir, f)); err == nil && fi.ModTime().After(st[ti].cleanAt) {
+										newer = true
+									}
+								}
+								if newer {
+									e.cause = "sources_changed:newer_file_present(" + strings.Join(sortedKeysH(st[ti].changes), "+") + ")"
+								} else {
+									e.cause = "sources_changed:only_removed_or_mtime_preserved"
 								}
 							}
-							if newer {
-								e.cause = "sources_changed:newer_file_present(" + strings.Join(sortedKeysH(st[ti].changes), "+") + ")"
-							} else {
-								e.cause = "sources_changed:only_removed_or_mtime_preserved"
-							}
+						case x.Generates && genErr != nil:
+							e.mustRun, e.cause = true, "generates_missing"
+						case x.Status && stErr != nil:
+							e.mustRun, e.cause = true, "status_fails"
 						}
-					case x.Generates && genErr != nil:
-						e.mustRun, e.cause = true, "generates_missing"
-					case x.Status && stErr != nil:
-						e.mustRun, e.cause = true, "status_fails"
+						exps[ti] = e
 					}
-					exps[ti] = e
 				}
 				gid := fmt.Sprintf("s%d", si)
 				sim.Triggers = nil
@@ -934,6 +977,8 @@ func runHOne(t *testing.T, ch *vs.Choices, prop string, render bool, p *hProj, h
 					out.Hit("fault:" + trig.Name)
 				}
 				after := snapshotTree(dir)
+				restamp(dir, now())
+				expect()
 				lines := readTrace()
 				delta := lines[min(traceLen, len(lines)):]
 				traceLen = len(lines)
@@ -1000,6 +1045,36 @@ func runHOne(t *testing.T, ch *vs.Choices, prop string, render bool, p *hProj, h
 					}
 					declined := x.Prompt && !strings.Contains(strings.Join(s.argv(p, dir), " "), "--yes")
 					switch {
+					case e.preFail && forced:
+						// --force is documented to skip preconditions: nothing asserted here, only bookkeeping
+						if ran && done {
+							st[ti].clean, st[ti].fp, st[ti].everRan, st[ti].changes, st[ti].cleanAt, st[ti].lastOKForced = true, e.fpNow, true, map[string]bool{}, now(), true
+						} else if ran {
+							st[ti].clean, st[ti].why = false, "failed_cmd"
+							reached = false
+						}
+					case e.preFail:
+						// a failing precondition stops the task, up to date or not, and fails the invocation; it is no
+						// attempt: what was recorded before stays as it was
+						out.Hit("fault:precondition_fails")
+						utd := "has_to_run"
+						if !e.mustRun {
+							utd = "up_to_date"
+						}
+						if ran {
+							violate("C13", "guard_ignored|precond|fingerprinted_task|"+utd, "%s: the commands of task %s ran although its precondition fails", desc, x.Name)
+							if done {
+								st[ti].clean, st[ti].fp, st[ti].everRan, st[ti].changes, st[ti].cleanAt = true, e.fpNow, true, map[string]bool{}, now()
+							} else {
+								st[ti].clean, st[ti].why = false, "failed_cmd"
+							}
+						} else if inv.exit == 0 && !crashed {
+							violate("C13", "guard_failure_not_reported|precond|fingerprinted_task|"+utd, "%s: the precondition of task %s fails but the invocation exited 0", desc, x.Name)
+						}
+						if crashed && e.mustRun {
+							st[ti].clean, st[ti].why = false, "crashed"
+						}
+						reached = false
 					case crashed:
 						// killed part-way: only soundness-relevant bookkeeping
 						if ran && done {
@@ -1118,7 +1193,7 @@ func hClassify(cause, method, what string) (string, string) {
 	case strings.HasPrefix(cause, "last_attempt:"):
 		return "C04", what + "|" + method + "|" + cause
 	case strings.HasPrefix(cause, "sources_changed"):
-		return "C05", what + "|" + method + "|" + cause+""
+		return "C05", what + "|" + method + "|" + cause + ""
 	default:
 		return "C05", what + "|" + method + "|" + cause
 	}
